@@ -97,3 +97,24 @@ Theorem C11_precq_model_sb : forall qs tscv,
   precq_sb (map fst qs) tscv (prec_queries pcache_empty qs) = true.
 Proof. exact precq_model_sb. Qed.
 Print Assumptions C11_precq_model_sb.
+
+(** The OS arm of [Timestamp::duration_since] (also what [RawSample::duration]
+    computes on the OS timer): the elapsed time between two instants converts
+    to exactly its nanoseconds times 1000 — whole seconds included — and to
+    zero when the instants are reversed. *)
+Theorem C11_os_duration_exact : forall later earlier,
+  later < 2 ^ 64 * 10 ^ 9 ->
+  os_duration_since later earlier = Ok ((later - earlier) * 1000).
+Proof. exact os_duration_exact. Qed.
+Print Assumptions C11_os_duration_exact.
+
+Theorem C11_os_duration_reversed : forall later earlier,
+  later <= earlier -> os_duration_since later earlier = Ok 0.
+Proof. exact os_duration_reversed. Qed.
+Print Assumptions C11_os_duration_reversed.
+
+Theorem C11_osd_model_sb : forall earlier later,
+  later < 2 ^ 64 * 10 ^ 9 ->
+  osd_sb earlier later (os_duration_since later earlier) = true.
+Proof. exact osd_model_sb. Qed.
+Print Assumptions C11_osd_model_sb.
